@@ -21,7 +21,7 @@ void Exec::op_misuse(const Op& op) {
   if (!ao.found || ao.used < 2 || ao.cap < 2) { count(C_EXCLUDED); return; }
   // (`used` still counts blocks that another thread freed and the owner has not collected yet: ask the model as well, or the whole area may
   //  be released by the first free and legitimately be built anew, forged link included)
-  { size_t others_live = 0; for (auto it = m.live.lower_bound(ao.lo); it != m.live.end() && it->first < ao.hi; ++it) if (it->second != s) others_live++; if (others_live < 1) { count(C_EXCLUDED); return; } }
+  size_t others_live = 0; for (auto it = m.live.lower_bound(ao.lo); it != m.live.end() && it->first < ao.hi; ++it) if (it->second != s) others_live++; if (others_live < 1) { count(C_EXCLUDED); return; }
   verify_blk(s, "before-misuse");
   uint8_t* p = b.p; size_t n = b.n; int home = b.home; mi_heap_t* hp = m.heaps[home].h;
   int eagain0 = mi_errors[0], efault0 = mi_errors[1], other0 = mi_errors[2] + mi_errors[5];
@@ -37,7 +37,17 @@ void Exec::op_misuse(const Op& op) {
     for (uint8_t* q : got) mi_free(q);
     return seen_p; };
   if (kind == "dfree") {
-    model_remove(s, true); mi_free(p); count(C_FREES);
+    bool first_remote = op.num("thread", 0) != 0;
+    if (first_remote) {
+      // the first (legal) free is made by another thread, the second by the owner. Known finding F19: if that first free is the first cross-thread free into
+      // the page, the block sits on the heap's delayed-free list, which the double-free check does not look at. Excluded by construction: another block of
+      // the same page is freed remotely first, so that the target goes to the page's thread-free list (which the check walks).
+      if (!known_f19_off) { int primer = -1; for (auto it = m.live.lower_bound(ao.lo); it != m.live.end() && it->first < ao.hi; ++it) if (it->second != s && m.slots[it->second].home == home && !m.slots[it->second].stranded) { primer = it->second; break; }
+        if (primer < 0 || ao.used < 3 || others_live < 2) { count(C_EXCLUDED); return; }
+        Blk& pb = m.slots[primer]; verify_blk(primer, "primer"); ThreadJob pj; pj.ptrs.push_back(pb.p); model_remove(primer, true); run_thread(pj); count(C_FREES); }
+      model_remove(s, true); { ThreadJob j; j.ptrs.push_back(p); run_thread(j); } count(C_FREES); for (int i = 1; i < NHEAPS; i++) if (m.heaps[i].alive) m.heaps[i].pending_remote = true;
+    } else {
+    model_remove(s, true); mi_free(p); count(C_FREES); }
     if (mi_errors[0] != eagain0 || mi_errors[1] != efault0) fail_now("misuse-first-free-error", "op#%ld the first (legal) free of %p reported an error", opi, p);
     size_t between = op.num("between", 0); std::vector<void*> tmp; size_t on = (n <= 1024 ? 5000 : 24);   // another class: cannot hand out p again
     for (size_t i = 0; i < between && i < 8; i++) tmp.push_back(mi_heap_malloc(hp, on));
@@ -171,7 +181,7 @@ static Case gen_c17(Chooser& ch) {
     if (g.out.size() > 6 && ch.chance(1, 7)) {
       int s = g.pick_live(); if (s < 0) { g.step(); continue; }
       Op op("misuse"); op.u("s", (uint64_t)s);
-      switch (ch.pick(3)) { case 0: op.s("kind", "dfree").u("between", ch.range(0, 8)); break;
+      switch (ch.pick(3)) { case 0: op.s("kind", "dfree").u("between", ch.range(0, 8)).u("thread", ch.chance(1, 3)); break;
         case 1: op.s("kind", "overflow").u("v", ch.range(1, 255)).u("thread", ch.chance(1, 3)); break;
         default: { bool thr = ch.chance(1, 4); op.s("kind", "forge").u("x", ch.bits(8) | 0x0001000100010001ull).u("thread", thr); if (!thr && ch.chance(1, 2)) op.u("where", ch.range(1, 5)); break; } }   // bits in every 16-bit lane: cannot decode into the same page
       g.out.push_back(op); g.note_free(s); misuses++;
@@ -195,6 +205,7 @@ void Exec::op_c18(const Op& op) {
     std::string what = op.str("what", "purged");
     if (what == "none") { if (purge_calls_seen != 0) fail_now("purged-although-disabled", "op#%ld %ld purge call(s) (madvise/mprotect-none) were issued although purge_delay is -1", opi, purge_calls_seen); return; }
     size_t nf = 0, segs = 0, pages = 0; size_t nfreed = 0; for (auto& w : watches) if (w.freed) nfreed++;
+    if (getenv("VF_DEBUG_C18")) { for (auto& w : watches) fprintf(stderr, "watch slot %d [%zx,%zx) freed=%d purged=%d spoiled=%d collect=%d free_same_seg=%d\n", w.slot, w.lo, w.hi, w.freed, w.purged, w.spoiled, w.saw_collect, w.saw_free_same_seg); for (auto& kv : m.live) fprintf(stderr, "  live slot %d [%zx,+%zu)\n", kv.second, kv.first, m.slots[kv.second].u); }
     for (auto& w : watches) { if (!w.freed) continue;
       // only evaluated when the premise holds: delay 0, or the clock passed delay*mult (+ extension per free) and ordinary activity followed
       bool seg_sized = (w.hi - w.lo > 16*MiB);
@@ -237,6 +248,9 @@ static Case gen_c18(Chooser& ch) {
       c.push_back(Op("watch").u("s", 0).u("k", (uint64_t)slot)); c.push_back(Op("rfree").u("s", 0).u("k", (uint64_t)slot).u("step", 1).u("ph", 0)); nfrees += (size_t)slot; keep0 = -1;
       if (D == 0) c.push_back(Op("expect").s("what", "purged")); }
     (void)first_slot;
+    // sometimes what was just freed is taken again at once and kept: when the expiry passes, the arena finds nothing left to purge (its purge
+    // bookkeeping must still be left in a state from which the next cycle's frees are purged)
+    if (w2 && D > 0 && cy + 1 < cycles && ch.chance(1, 2)) { int kk = (int)ch.range(1, 3); for (int i = 0; i < kk; i++) allocs(1, (size_t)ch.range(17*MiB, 60*MiB)); }
     if (D == 0) continue;
     long delay = (D < 0 ? 10 : D); size_t tick = (size_t)(delay * M) + 100 * nfrees + 1000 + (size_t)ch.range(0, 5000);
     c.push_back(Op("tick").u("ms", tick));
